@@ -293,7 +293,11 @@ pub fn gen_boundary_msg(rng: &mut Rng, delta: i64) -> AMsg {
     m.secs[0].push(ARec { name: fresh.clone(), rtype: 1, class: 1, ttl: 60, data: AData::Other(vec![192, 0, 2, 1]) });
     m.secs[0].push(ARec { name: deeper.clone(), rtype: 5, class: 1, ttl: 60, data: AData::Single(fresh.clone()) });
     m.secs[1].push(ARec { name: fresh.clone(), rtype: 2, class: 1, ttl: 60, data: AData::Single([vec![b"ns".to_vec()], deeper.clone()].concat()) });
-    m.secs[2].push(ARec { name: [vec![b"ns".to_vec()], deeper].concat(), rtype: 15, class: 1, ttl: 60, data: AData::Pref(10, fresh) });
+    m.secs[2].push(ARec { name: [vec![b"ns".to_vec()], deeper].concat(), rtype: 15, class: 1, ttl: 60, data: AData::Pref(10, fresh.clone()) });
+    // names that share only a proper suffix of the fresh name: the pointer they need targets a label in the MIDDLE of the
+    // fresh name (zN or example), which the delta sweep places at exactly 16384 -- a pointer that must not be written
+    m.secs[2].push(ARec { name: [vec![b"sib".to_vec()], fresh[1..].to_vec()].concat(), rtype: 1, class: 1, ttl: 60, data: AData::Other(vec![192, 0, 2, 2]) });
+    m.secs[2].push(ARec { name: [vec![b"cousin".to_vec()], fresh[2..].to_vec()].concat(), rtype: 1, class: 1, ttl: 60, data: AData::Other(vec![192, 0, 2, 3]) });
     m
 }
 
@@ -439,7 +443,10 @@ fn rt(args: &[String]) {
         }
         out.emit(rt_event(&m, "big"));
     }
-    for d in [-40i64, -3, -2, -1, 0, 1, 2, 30, 3000] {
+    // every delta from -12 to 2: each label of the fresh name (late . zN . example, 5 + 3..5 + 8 octets) is once the one
+    // first written at exactly 16383 / 16384 / 16385 -- a label is looked up from the root end of the name, so it is the
+    // label nearest the root among the newly written ones that decides whether a pointer to offset 16384 is attempted
+    for d in [-40i64, -12, -11, -10, -9, -8, -7, -6, -5, -4, -3, -2, -1, 0, 1, 2, 30, 3000] {
         let m = gen_boundary_msg(&mut rng, d);
         out.emit(rt_event(&m, "boundary16k"));
     }
